@@ -6,6 +6,7 @@
 // modification, are permitted under the terms of the BSD License. See
 // LICENSE file in the root of the Project.
 
+#include <algorithm>
 #include "BaseTagHDF5.hpp"
 #include <nix/NDArray.hpp>
 #include <nix/util/util.hpp>
@@ -105,12 +106,23 @@ bool BaseTagHDF5::removeReference(const std::string &name_or_id) {
 
 
 void BaseTagHDF5::references(const std::vector<DataArray> &refs_new) {
+    // resolve the new references first: an array that is not in the block (or no array
+    // at all) is refused before any of the old references is dropped
+    std::vector<std::string> ids;
+    for (const auto &ref : refs_new) {
+        const std::string id = ref.id();
+        if (!block()->hasEntity({id, ObjectType::DataArray}))
+            throw std::runtime_error("BaseTagHDF5::references: DataArray not found in block!");
+        if (std::find(ids.begin(), ids.end(), id) == ids.end())
+            ids.push_back(id);
+    }
+
     while (referenceCount() > 0) {
         removeReference(getReference(0)->id());
     }
 
-    for (const auto &ref : refs_new) {
-        addReference(ref.id());
+    for (const auto &id : ids) {
+        addReference(id);
     }
 }
 
